@@ -214,8 +214,16 @@ Theorem C07_stamp_fields_spec :
 Proof. exact stamp_fields_spec. Qed.
 Print Assumptions C07_stamp_fields_spec.
 
-(* ---- translator table Gen/StampTable.v: the shape of the stamping code, read out of
-        pkg/action/validate.go (and the call sites in pkg/action) by go/ast on every run ---- *)
+(* ---- translator table Gen/StampTable.v: what the stamping code computes, read out of
+        pkg/action (validate.go and the call sites) by a symbolic evaluation over go/ast on every
+        run: canonical names (parameters by position, constants by value), copy loops / maps.Copy /
+        maps.Clone / make, hoisted locals, inlined helpers, order of independent statements ---- *)
+
+(* the translator interpreted every construct it met (anything else is a row Unknown "<text>",
+   listed here, so that the failure names the construct) *)
+Theorem C07_stamp_table_readable : stamp_table_unknowns = [].
+Proof. reflexivity. Qed.
+Print Assumptions C07_stamp_table_readable.
 
 (* the constants, the parameter names of mergeStrStrMaps and the maps it copies (in order), the
    argument roles at its two callers, the literal maps of setMetadataVisitor, the force argument
